@@ -205,6 +205,39 @@ func workloads(threeWay bool) []workload {
 			ws = append(ws, w)
 		}
 	}
+	// W13 federated Follow with auto-accept (the Accept goes into the outbox) || client POST to the same outbox
+	{
+		sc := inboxScenario(nil, func(sc *sim.Scenario) { sc.Cfg.OnFollow = 1 })
+		sc.Requests = nil
+		w := workload{Name: "W13.auto-accept-vs-client-post", Sc: sc, Cols: []string{"outbox:" + aliceOut(), "col:" + alice() + "/followers", "inbox:" + aliceIn()}, Adds: nil}
+		sc.Requests = append(sc.Requests, sim.PostInboxReq(aliceIn(), withCtx(M{"type": "Follow", "id": R1 + "/act/w13-follow", "actor": carol(), "object": alice()})))
+		sc.Requests = append(sc.Requests, sim.PostOutboxReq(aliceOut(), withCtx(M{"type": "Listen", "actor": alice(), "to": dave(), "object": R1 + "/songs/13"})))
+		if !threeWay {
+			ws = append(ws, w)
+		}
+	}
+	// W14 federated Add || client Add on one owned collection (both protocols write the same collection)
+	{
+		sc := inboxScenario(nil, func(sc *sim.Scenario) { ownedCollection(sc, "c1", true, R2+"/notes/old") })
+		sc.Requests = nil
+		w := workload{Name: "W14.federated-add-vs-client-add", Sc: sc, Cols: []string{"col:" + L + "/collections/c1", "inbox:" + aliceIn()}, Adds: nil}
+		sc.Requests = append(sc.Requests, sim.PostInboxReq(aliceIn(), withCtx(M{"type": "Add", "id": R1 + "/act/w14-add", "actor": carol(), "object": R1 + "/notes/w14-fed", "target": L + "/collections/c1"})))
+		sc.Requests = append(sc.Requests, sim.PostOutboxReq(aliceOut(), withCtx(M{"type": "Add", "actor": alice(), "to": carol(), "object": R1 + "/notes/w14-client", "target": L + "/collections/c1"})))
+		if !threeWay {
+			ws = append(ws, w)
+		}
+	}
+	// W15 client Delete || federated Announce of one owned object (order-dependent outcomes allowed)
+	{
+		sc := inboxScenario(nil, func(sc *sim.Scenario) { ownedNote(sc, 1, nil) })
+		sc.Requests = nil
+		w := workload{Name: "W15.client-delete-vs-announce", Sc: sc, Cols: []string{"obj:" + L + "/notes/1", "inbox:" + aliceIn()}, Adds: nil}
+		sc.Requests = append(sc.Requests, sim.PostOutboxReq(aliceOut(), withCtx(M{"type": "Delete", "actor": alice(), "to": carol(), "object": L + "/notes/1"})))
+		sc.Requests = append(sc.Requests, sim.PostInboxReq(aliceIn(), withCtx(M{"type": "Announce", "id": R1 + "/act/w15-ann", "actor": carol(), "object": L + "/notes/1"})))
+		if !threeWay {
+			ws = append(ws, w)
+		}
+	}
 	// W8 two forwarding-eligible activities naming two owned collections in opposite order
 	{
 		sc := inboxScenario(nil, func(sc *sim.Scenario) {
